@@ -206,10 +206,12 @@ def _core0(rng, cfg, nt):
             events.append({'tick': t, 'core': 0, 'kind': 'fiq'})
         elif k < 0.7:
             events.append({'tick': t, 'core': 0, 'kind': 'reset'})
+        elif k < 0.8:
+            events.append({'tick': t, 'core': 0, 'kind': 'regswap'})       # the register file replaced by a deep copy of itself (a restored checkpoint)
         else:
             events.append({'tick': t, 'core': 0, 'kind': 'regime', 'regs': _simple_regime(rng, cfg)})
     if full:
-        events = [e for e in events if e['kind'] in ('irq', 'fiq')]          # keep the translation regime for the whole run
+        events = [e for e in events if e['kind'] in ('irq', 'fiq', 'regswap')]          # keep the translation regime for the whole run
     events.sort(key=lambda e: e['tick'])
     return {'config': cfg, 'devices': devices, 'regs': regs, 'words': words, 'force': None, 'events': events, 'no_poke': [0x50000] if full else []}
 
@@ -300,6 +302,9 @@ def gen(item, rng, tier):
                 c['regs']['cpsr'] ^= 0x20
                 c['events'] = [e for e in c['events'] if e['tick'] < len(c['words'])]
             cores.append(c)
+        if regime != 'same' and rng.random() < 0.25:
+            for c in cores:
+                c['config_alias'] = 'shared'        # every instance's configuration is written to the SAME file name before its constructor runs (machine.config_path)
         if regime == 'same' and rng.random() < 0.3:
             # configuration files that are the same in everything the processor consults at run time and differ in the memory they declare: every
             # RAM of every instance is declared in its file's memory_list (the library builds the hub), each instance has a window of its own that the
